@@ -148,9 +148,15 @@ func TestVerifC19(t *testing.T) {
 					os.WriteFile(filepath.Join(d, "inner.txt"), []byte("keep"), 0o644)
 				}
 			}
-			if rnd.Intn(4) == 0 {
+			if rnd.Intn(3) == 0 {
 				os.WriteFile(filepath.Join(home, "outside.txt"), []byte("outside"), 0o644)
 				os.Symlink(filepath.Join(home, "outside.txt"), filepath.Join(local, "link.json"))
+				if rnd.Bool() {
+					os.Symlink("../../../outside.txt", filepath.Join(local, "rel.v1.count")) // relative
+				}
+				if rnd.Bool() {
+					os.Symlink(filepath.Join(home, "nowhere"), filepath.Join(local, "dangling.json"))
+				}
 			}
 		}
 		if rnd.Intn(6) != 0 {
@@ -280,8 +286,13 @@ func TestVerifC19(t *testing.T) {
 				for p, e := range after {
 					dir, name := filepath.Split(p)
 					dir = filepath.Clean(dir)
-					if e.Dir || e.Link != "" {
+					if e.Dir {
 						continue
+					}
+					// (a symbolic link carrying a data-file name is a data file for every
+					// reader - uploader, view, dump follow it - so the link goes, its target stays)
+					if e.Link != "" {
+						res.Hit("data-named-symlink-judged")
 					}
 					if dir == filepath.Join("go", "telemetry", "local") && isLocalData(name) || dir == filepath.Join("go", "telemetry", "upload") && isUploadData(name) {
 						res.Violate("clean-left-data", fmt.Sprintf("after clean the data file %s is still there (stderr: %.200s)", p, errOut), rp)
